@@ -41,7 +41,7 @@ func (m *monC05) PostCall(s *Sim, c *Call) {
 	_ = json.Unmarshal(c.Out, post)
 	// C04 M2: never more canary nodes than the resolved replicas
 	if post.Status.Canary != nil && post.Spec.Strategy.Canary != nil && post.Spec.Strategy.Canary.Replicas != nil {
-		if want, ok := resolvePct(post.Spec.Strategy.Canary.Replicas, m.maxNodes, true); ok {
+		if want, ok := resolvePct(post.Spec.Strategy.Canary.Replicas, m.maxNodes, true); ok && want >= 0 {
 			s.Stats.NonVacuous["C04.canary-status"]++
 			if len(post.Status.Canary.Nodes) > want {
 				s.Violate("C04", "M2", "", "%s recorded %d canary nodes, replicas %s resolves to at most %d", t.Label(), len(post.Status.Canary.Nodes), post.Spec.Strategy.Canary.Replicas.String(), want)
@@ -281,7 +281,7 @@ func (m *monC05) checkCanaryNodes(s *Sim, t *Task, v *SyncView, st *edsv1.Extend
 	m.elig[up.Name] = [2]int{lo, hi}
 	wantLo, ok1 := resolvePct(can.Replicas, lo, true)
 	wantHi, ok2 := resolvePct(can.Replicas, hi, true)
-	if !ok1 || !ok2 {
+	if !ok1 || !ok2 || wantLo < 0 || wantHi < 0 {
 		return
 	}
 	if len(nodes) > wantHi {
